@@ -391,3 +391,64 @@ theorem selectIdx_usable_post (ls : List (SLink F)) (last : Option Nat) (now : N
     exact ⟨c', hc', hu⟩
 
 end Srtla.SelLemmas
+
+/-! ## Round 2 (C11): the selected index is a scored table entry — for ANY scalar instance
+
+`EnhancedField.selected_scored` proves this over an ordered field through `bestGo_spec` (which also
+needs the order to say "maximum").  That the running best is *an index of a scored entry* needs no
+order at all, hence holds for the `Float` instance the driver runs. -/
+namespace Srtla.SelLemmas
+open Srtla.Gen Srtla.Conn Srtla Srtla.Select
+
+variable {F : Type} [Scalar F]
+
+theorem bestGo_index (t : List (Option F)) : ∀ (i : Nat) (b0 : Option Nat) (bs0 : F),
+    (bestGo t i b0 bs0).1 = b0 ∨
+      ∃ (k : Nat) (s : F), (bestGo t i b0 bs0).1 = some (i + k) ∧ t[k]? = some (some s) := by
+  induction t with
+  | nil => intro i b0 bs0; left; rfl
+  | cons x t ih =>
+    intro i b0 bs0
+    cases x with
+    | none =>
+      simp only [bestGo]
+      rcases ih (i + 1) b0 bs0 with h | ⟨k, s, h1, h2⟩
+      · exact Or.inl h
+      · exact Or.inr ⟨k + 1, s, by rw [h1]; congr 1; omega, by simpa using h2⟩
+    | some s =>
+      simp only [bestGo]
+      split
+      · rcases ih (i + 1) (some i) s with h | ⟨k, s', h1, h2⟩
+        · exact Or.inr ⟨0, s, by rw [h]; rfl, rfl⟩
+        · exact Or.inr ⟨k + 1, s', by rw [h1]; congr 1; omega, by simpa using h2⟩
+      · rcases ih (i + 1) b0 bs0 with h | ⟨k, s', h1, h2⟩
+        · exact Or.inl h
+        · exact Or.inr ⟨k + 1, s', by rw [h1]; congr 1; omega, by simpa using h2⟩
+
+/-- The index returned by the enhanced pass — the running best, or `last` through the hysteresis —
+is a scored entry of the pass's table, for every scalar instance. -/
+theorem selected_scored_any (ls : List (SLink F)) (last : Option Nat) (now : Nat) (quality : Bool) (i : Nat)
+    (h : (enhancedSelect ls last now quality).2 = some i) :
+    ∃ s : F, (ls.map (entry now quality (anyUnconstrained ls now)))[i]? = some (some s) := by
+  rw [enhancedSelect_eq] at h
+  dsimp only at h
+  rcases decideRes_cases last
+      (bestGo (ls.map (entry now quality (anyUnconstrained ls now))) 0 none (Scalar.lit (-1.0) (-1) 1)).1
+      (bestGo (ls.map (entry now quality (anyUnconstrained ls now))) 0 none (Scalar.lit (-1.0) (-1) 1)).2
+      (curGo last (ls.map (entry now quality (anyUnconstrained ls now))) 0 none) with hb | ⟨l, c, hl, hc, hr⟩
+  · rw [hb] at h
+    rcases bestGo_index (ls.map (entry now quality (anyUnconstrained ls now))) 0 none
+        (Scalar.lit (-1.0) (-1) 1) with h3 | ⟨k, s, hk, hk2⟩
+    · rw [h3] at h; cases h
+    · rw [hk] at h
+      have : 0 + k = i := Option.some.inj h
+      have : k = i := by omega
+      subst this
+      exact ⟨s, hk2⟩
+  · rw [hr] at h
+    have : l = i := Option.some.inj h
+    subst this
+    subst hl
+    exact ⟨c, (curGo_zero l _ c).1 hc⟩
+
+end Srtla.SelLemmas
